@@ -83,6 +83,29 @@ def rule_filled_array_returned(ctx, tb, key, filler=("for_each", "fold", "apply"
         if other:
             bad = "the result array is also modified by `%s` at %s" % (other[0][1], tb.where(other[0][0], "term"))
             break
+    # success values produced *before* the traversal (the short-cut for an empty result) are taken only when the result has no
+    # element: the defining block is dominated by the true edge of `size(shape) == 0` / `is_empty(..)` / `len(..) == 0`
+    if bad is None:
+        from .rules_unsafe import bool_branch_dominating
+
+        def emptiness(de):
+            de = ds(de)
+            if isinstance(de, tuple) and de[0] == "call" and de[1] == "is_empty":
+                return True
+            if isinstance(de, tuple) and de[0] == "binop" and de[1] == "Eq":
+                l_, r_ = ds(de[2]), ds(de[3])
+                return isinstance(l_, tuple) and l_[0] == "call" and l_[1] in ("size", "len", "len_of") and r_ == ("const", "usize", 0)
+            return False
+        for d, L in returned_locals(tb):
+            if d[0] == "entry" or d[0] in after:
+                continue
+            e = ds(tb.def_expr(0, d))
+            if isinstance(e, tuple) and ((e[0] == "agg" and e[2] == "Err") or (e[0] == "call" and e[1] == "from_residual")):
+                continue
+            doms = bool_branch_dominating(tb, d[0], emptiness)
+            if not any(x_[1] for x_ in doms):
+                bad = "a success value is produced at %s without running the traversal and without the result being empty" % tb.where(d[0], d[1])
+                break
     ok = bad is None and n > 0
     ctx.ob(rule, key, ok, tb.where(fills[0], "term"),
            "the array returned is the one the traversal filled, borrowed mutably by the traversal's producers only" if ok else
@@ -116,7 +139,23 @@ DELEGATING = [
     ("MaybeNanExt", "fold_axis_skipnan", "fold_axis"),
     ("MaybeNanExt", "map_axis_skipnan_mut", "map_axis_mut"),
     ("QuantileExt", "quantile_axis_skipnan_mut", "map_axis_mut"),
+    ("QuantileExt", "quantiles_axis_mut", "quantiles_axis_mut"),       # the method hands the inner routine's result back
+    ("Quantile1dExt", "quantiles_mut", "quantiles_axis_mut"),
 ]
+
+
+def rule_must_pass_through(ctx, prog, trait, meth, callee, rule="R30"):
+    """a routine without a result (a visitor): every entry→return path runs the traversal call (no early exit skips the visit)"""
+    root = prog.method(trait, meth)
+    sites = [bb for bb, t in root.calls() if callee_name(t) == callee]
+    key = "%s/every-path-runs-%s" % (meth, callee)
+    if len(sites) != 1:
+        ctx.ob(rule, key, False, root.where(), "anchor not recognised: %d calls to %s" % (len(sites), callee), what="anchor not recognised")
+        return
+    skip = root.can_reach_return(0, avoid=(sites[0],))
+    ctx.ob(rule, key, not skip, root.where(sites[0], "term"),
+           "no path from entry to return avoids the %s(..) traversal" % callee if not skip else
+           "some path returns without running the %s(..) traversal: elements are not visited" % callee, what="traversal skipped on some path")
 
 
 def rule_r30_delegating(ctx, prog, only=None, rule="R30"):
@@ -192,3 +231,121 @@ def rule_r30_captured_index(ctx, prog, names=("argmin_skipnan", "argmax_skipnan"
 def _walk(e):
     from .facts import walk
     return walk(e)
+
+
+# ------------------------------------------------------------------------------------------------ guard direction by simulation
+_CMPS = {"lt": lambda a, b: a < b, "le": lambda a, b: a <= b, "gt": lambda a, b: a > b, "ge": lambda a, b: a >= b,
+         "eq": lambda a, b: a == b, "ne": lambda a, b: a != b,
+         "Lt": lambda a, b: a < b, "Le": lambda a, b: a <= b, "Gt": lambda a, b: a > b, "Ge": lambda a, b: a >= b,
+         "Eq": lambda a, b: a == b, "Ne": lambda a, b: a != b}
+
+
+def eval_cond(e, leaf):
+    """truth value of a comparison / Boolean combination over leaves with known numeric values, None if not evaluable.
+    Only the *extracted* MIR condition is evaluated, at a handful of sample points that separate every relational operator
+    (below / at / above each bound): a finite decision table, not an execution of the crate."""
+    e = ds(e)
+    if not isinstance(e, tuple):
+        return None
+    if e[0] == "const" and isinstance(e[2], bool):
+        return e[2]
+    if e[0] == "unop" and e[1] == "Not":
+        v = eval_cond(e[2], leaf)
+        return None if v is None else (not v)
+    if e[0] == "call" and e[1] == "not" and len(e[3]) == 1:
+        v = eval_cond(e[3][0], leaf)
+        return None if v is None else (not v)
+    if (e[0] == "call" and e[1] in _CMPS and len(e[3]) == 2) or (e[0] == "binop" and e[1] in _CMPS):
+        a, b = (e[3][0], e[3][1]) if e[0] == "call" else (e[2], e[3])
+        va, vb = num_value(a, leaf), num_value(b, leaf)
+        if va is None or vb is None:
+            return None
+        return _CMPS[e[1]](va, vb)
+    if e[0] == "binop" and e[1] in ("BitAnd", "BitOr"):
+        a, b = eval_cond(e[2], leaf), eval_cond(e[3], leaf)
+        if a is None or b is None:
+            return None
+        return (a and b) if e[1] == "BitAnd" else (a or b)
+    return None
+
+
+def num_value(e, leaf):
+    e = ds(e)
+    v = leaf(e)
+    if v is not None:
+        return v
+    if isinstance(e, tuple):
+        if e[0] == "const" and isinstance(e[2], (int, float)) and not isinstance(e[2], bool):
+            return e[2]
+        if e[0] == "cast":
+            return num_value(e[2], leaf)
+        if e[0] == "call" and e[1] in ("expect", "unwrap", "from", "into", "clone", "deref") and e[3]:
+            return num_value(e[3][0], leaf)
+        if e[0] == "call" and e[1] in ("from_usize", "from_u16", "from_i32", "from_f64", "from_u32", "from_u64") and e[3]:
+            return num_value(e[3][0], leaf)
+        if e[0] == "call" and e[1] in ("zero",) and not e[3]:
+            return 0
+        if e[0] == "call" and e[1] in ("one",) and not e[3]:
+            return 1
+    return None
+
+
+def simulate_guard(body, start_bb, leaf, max_steps=400):
+    """follow the CFG from start_bb, deciding every switch whose discriminant eval_cond can evaluate under `leaf`;
+    → 'diverges' (a block is reached from which no return is reachable), 'passes' (return, or the first switch that does not
+    depend on the sampled quantities), 'loop' (step budget exhausted)"""
+    bb = start_bb
+    for _ in range(max_steps):
+        if not body.can_reach_return(bb):
+            return "diverges"
+        t = body.term(bb)
+        k = t["k"]
+        if k == "return":
+            return "passes"
+        if k == "switch":
+            v = eval_cond(body.switch_discr_expr(bb), leaf)
+            if v is None:
+                return "passes"
+            tgt = t["otherwise"]
+            for val, tg in t["arms"]:
+                if val == int(v):
+                    tgt = tg
+            bb = tgt
+            continue
+        nxt = t.get("target")
+        if nxt is None:
+            return "diverges"
+        bb = nxt
+    return "loop"
+
+
+def rule_guard_table(ctx, body, key, involves, leaf_for, samples, expect_diverge, describe, rule="R30", what=""):
+    """the panicking precondition check of `body` that mentions `involves(expr)` diverges on exactly the samples it should"""
+    starts = []
+    for bb, t in body.calls():
+        if callee_name(t) in _CMPS and any(involves(ds(a)) for a in body.call_arg_exprs(bb)):
+            starts.append(bb)
+    for bb in body.live_blocks():
+        t = body.term(bb)
+        if t["k"] == "switch":
+            de = ds(body.switch_discr_expr(bb))
+            if isinstance(de, tuple) and de[0] == "binop" and de[1] in _CMPS and (involves(ds(de[2])) or involves(ds(de[3]))):
+                starts.append(bb)
+    starts = [b for b in starts if all(body.dominates(b, o) or not body.dominates(o, b) for o in starts)]
+    first = [b for b in starts if all(body.dominates(b, o) for o in starts)]
+    if not first:
+        ctx.ob(rule, key, False, body.where(), "anchor not recognised: no comparison on the guarded quantity found", what="anchor not recognised")
+        return
+    start = first[0]
+    bad = []
+    for s_ in samples:
+        got = simulate_guard(body, start, leaf_for(s_))
+        exp = expect_diverge(s_)
+        if exp is None:         # outside the property's quantifier: either behaviour is acceptable
+            continue
+        want = "diverges" if exp else "passes"
+        if got != want:
+            bad.append("%s: %s, expected %s" % (describe(s_), got, want))
+    ctx.ob(rule, key, not bad, body.where(start, "term"),
+           "the precondition check lets every argument of the property's range through (%d sample points at and between its bounds)" % len(samples) if not bad else
+           "the precondition check decides wrongly: " + "; ".join(bad[:3]), what=what or "precondition check rejects valid arguments or admits invalid ones")
